@@ -120,6 +120,68 @@ CHECKS.update({
                   "(Obs_React); edit machine + Trace_Edit for reactant/product/reverse"),
 })
 
+RD_NOTE = TRUST + ("RDKit (SMILES parser/writer, RenumberAtoms, stereoisomer enumeration, canonical SMILES, ETKDG/MMFF, "
+                   "AssignStereochemistryFrom3D, kekulisation) is a trusted, unmodelled environment component; refusals and embedding "
+                   "failures are skipped and counted.")
+CHECKS.update({
+    "C07": dict(category="exploration",
+        text="Finite part exhaustive in thorough mode: MC_Geom enumerates every placement of identifiers on the idealised "
+             "tetrahedral, square-planar, trigonal-bipyramidal and octahedral figures x the 24 lattice rotations x reflection, with the "
+             "handedness convention derived from the class docstrings and every spelling of the expected descriptor; each case is "
+             "realised with per-element bond lengths, noise, a random rigid motion and a shuffled hand-over order and goes through "
+             "atom_stereo_from_coords and StereoMolGraph.from_geometry. Metamorphic part: the XYZ corpus and reaction triples under "
+             "rigid motion / atom permutation / reflection, decided by TLC (Obs_Meta) with the known atom correspondence as witness. "
+             "Exploration, not model checking: the continuous part (noise, thresholds) is sampled.",
+        design_ref="DESIGN.md 3.4, 6 (C07)", note=TRUST + "geometries on a bonding or planarity threshold are filtered out by the "
+             "harness before the code is called (DESIGN 5 rule 5) and counted as skipped.",
+        technique="TLC-enumerated lattice figures (MC_Geom) replayed through the real perception; recorded metamorphic pairs validated by TLC (Obs_Meta)"),
+    "C20": dict(category="exploration",
+        text="Text half: MC_Xyz enumerates boundary documents (1-4 atoms, runs over all 118 symbols, coordinate values at zero, "
+             "negative zero, the last printed digit, rounding ties, carries, magnitude 1e6, ten comment lines); xyz_str -> from_xyz / "
+             "from_xyz_file and Obs_Xyz (TLC) decides every record on exact <sign,int,fraction> triples. Connectivity half: MC_Conn "
+             "enumerates lattice geometries (2-5 atoms, 6 elements) with the bond set computed in exact integer arithmetic from "
+             "d < 1.2(r_i+r_j); BondsFromDistance and MolGraph.from_geometry must agree, also after lattice rotations, translation, "
+             "permutation and a random real rotation.",
+        design_ref="DESIGN.md 3.4, 6 (C20)", note=TRUST + "covalent radii of the elements used are transcribed into MC_Conn from "
+             "Pyykko & Atsumi; the text half is encode/decode fidelity, for which the spec contributes the document model and the "
+             "boundary enumeration.",
+        technique="TLC-enumerated XYZ documents and lattice geometries replayed on the real code; round-trip records validated by TLC (Obs_Xyz)"),
+    "C12": dict(category="exploration",
+        text="Labels: for a centre with pairwise distinct monoatomic ligands every permutation label (@/@@, @SP1-3, @TB1-20, @OH1-30) "
+             "in several random spellings and renumberings is imported by atom-map number; Obs_Descr (TLC) decides for every pair of "
+             "imports whether the centre descriptors denote the same arrangement: same label <=> same arrangement, and the "
+             "library's == / hash must agree. Corpus: 75 organic molecules x stereoisomers x respelling / renumbering / option "
+             "combinations; Obs_IsoPair (TLC, complete search) decides whether two imports are isomorphic; distinct stereoisomers "
+             "must import non-isomorphic; the atom-map import must be the index import renamed (Obs_Meta, literal).",
+        design_ref="DESIGN.md 6 (C12)", note=RD_NOTE,
+        technique="recorded imports validated by TLC against SMGStereo!DEq / SMGIso (Obs_Descr, Obs_IsoPair, Obs_Meta)"),
+    "C13": dict(category="exploration",
+        text="TLC enumerates every placement of distinct ligands x both parities for the four atom-centred classes and a lone-pair "
+             "tetrahedral centre (all stereoisomer classes in every spelling) plus templates; each graph is built with arbitrary "
+             "shuffled identifiers, exported with _to_rdmol and re-imported by atom-map number; Obs_Meta (TLC) checks atoms, elements, "
+             "bonds and every atom-centred descriptor up to symmetry with the identity as witness, and that the export left the graph "
+             "untouched. Imported corpus molecules are exported with regenerated bond orders and the E/Z descriptors of isolated "
+             "double bonds are compared as well.",
+        design_ref="DESIGN.md 6 (C13)", note=RD_NOTE,
+        technique="TLC-enumerated stereo graphs exported/imported through RDKit; recorded results validated by TLC (Obs_Meta)"),
+    "C14": dict(category="exploration",
+        text="Complexes: MC_Geom figure cases are realised as coordinates, an RDKit molecule with shuffled atom/bond order is built on "
+             "them, RDKit assigns the permutation label from 3D, the label is imported and the same coordinates are perceived; both "
+             "descriptors must be a spelling of the expected descriptor printed by TLC (all four classes). Organic: corpus x "
+             "stereoisomers x embedding seeds, import vs perception with non-double-bond PlanarBond descriptors removed, decided by "
+             "Obs_IsoPair (TLC, complete search). Two listed known findings (lone-pair units are not perceived from 3D).",
+        design_ref="DESIGN.md 6 (C14)", note=RD_NOTE,
+        technique="TLC-enumerated figures realised in RDKit and in the perception code; recorded graph pairs validated by TLC (Obs_IsoPair)"),
+    "C18": dict(category="exploration",
+        text="Structural part: MC_BondOrd enumerates every symmetric 0/1 matrix on 2-4 atoms (5 sampled) x element lists incl. "
+             "chemically impossible ones; Obs_BondOrd (TLC) checks symmetry, integrality and bo>=1 exactly on bonded pairs. Chemical "
+             "part: corpus molecules certified by RDKit's kekulised structure, several atom orders, through connectivity2bond_orders "
+             "and through to_rdmol(generate_bond_orders=True) with shuffled non-contiguous identifiers; Obs_BondOrd checks standard "
+             "valences, no charges, no unpaired electrons.",
+        design_ref="DESIGN.md 6 (C18)", note=RD_NOTE,
+        technique="TLC-enumerated connectivity inputs; recorded outputs validated by TLC (Obs_BondOrd)"),
+})
+
 PENDING_REASON = "check not built yet in this round; planned with the TLA+ technique as described in DESIGN.md section 6"
 
 
